@@ -9,7 +9,7 @@ abbrev Slice := Option Int × Option Int × Option Int
 
 /-- clamp one bound of a slice as CPython's `slice.indices` does (`Objects/sliceobject.c`, `_PySlice_GetLongIndices`):
 a negative bound counts from the end and is cut at `lower`, a non-negative one is cut at `upper` -/
-def sliceBound (x : Int) (length lower upper : Int) : Int :=
+def sliceClamp (x : Int) (length lower upper : Int) : Int :=
   if x < 0 then (if x + length < lower then lower else x + length) else (if x > upper then upper else x)
 
 /-- `s.indices(length)` for `length ≥ 0` : `(start, stop, step)`; `step == 0` raises ValueError, a negative length too -/
@@ -20,10 +20,10 @@ def sliceIndices (s : Slice) (length : Int) : Option (Int × Int × Int) :=
   let upper : Int := if step < 0 then length - 1 else length
   let start := match s.1 with
     | none => if step < 0 then upper else lower
-    | some a => sliceBound a length lower upper
+    | some a => sliceClamp a length lower upper
   let stop := match s.2.1 with
     | none => if step < 0 then lower else upper
-    | some b => sliceBound b length lower upper
+    | some b => sliceClamp b length lower upper
   some (start, stop, step)
 
 /-- `list(range(start, stop, step))`; `step == 0` raises ValueError -/
